@@ -281,7 +281,24 @@ def m_strlen(I, st, fr, n, this, args, an):
     if p[0] == 'p' and isinstance(p[1], tuple) and p[1][0] == 'str':
         return [(st, C(len(p[1][1])))]
     I.emit('strlen', st, node=n, arg=p)
-    return [(st, R(0, (1 << 31) - 1))]
+    # the length of a given string is one fixed unknown number: a named symbol
+    nm = '$strlen:' + show(p)
+    hi = (1 << 31) - 1
+    if len(args) > 1:
+        r = rng(args[1], st.sym)
+        nm = '$strnlen:%s:%s' % (show(p), show(args[1]))
+        if r is not None:
+            hi = min(hi, r[1])
+    old = st.sym.get(nm)
+    st.sym[nm] = (0, hi) if old is None else old
+    return [(st, sym(nm))]
+
+
+def m_ferror(I, st, fr, n, this, args, an):
+    s2 = st.copy()
+    st.note((nloc(n), 'ferror=0'))
+    s2.note((nloc(n), 'ferror!=0'))
+    return [(st, C(0)), (s2, C(1))]
 
 
 def m_exit(I, st, fr, n, this, args, an):
@@ -454,6 +471,7 @@ STD_MODELS = {
     'ungetc': m_ungetc, 'fopen': m_fopen, 'fclose': m_fclose, 'fflush': m_fflush,
     'printf': m_console, 'puts': m_console, 'putchar': m_console, 'fprintf': m_fprintf,
     'sprintf': m_sprintf, 'snprintf': m_snprintf, 'scanf': m_scanf,
+    'ferror': m_ferror, 'strnlen': m_strlen,
     'memcpy': m_memcpy, 'memmove': m_memcpy, 'memset': m_memset, 'strlen': m_strlen,
     'std::memcpy': m_memcpy, 'std::memset': m_memset, 'std::strlen': m_strlen,
     'exit': m_exit, 'std::exit': m_exit, 'abort': m_exit,
